@@ -43,6 +43,12 @@ def offset(prop):
 def plan(prop, tier):
     seconds = QUICK_S if tier == "quick" else THOROUGH_S
     phases = [{"name": "seeded-search", "share": 1.0, "sample_every": 997}]
+    if prop == "C14":
+        # half of the budget walks through the complete fault-site list of small scenarios (256 seeds per scenario)
+        phases = [
+            {"name": "seeded-search", "share": 0.5, "sample_every": 997},
+            {"name": "fault-site-enumeration", "share": 0.5, "sample_every": 997, "args": ["--gen", "C14enum"], "seed_offset": 1 << 30},
+        ]
     return {
         "seconds": seconds,
         "phases": phases,
@@ -54,11 +60,18 @@ def plan(prop, tier):
 
 
 def expected_probes(prop):
-    base = ["worker_came_back_empty", "late_worker_pulled_chunk0", "spawn_after_lag_period", "min_chunk_grew", "eager_run_at_construction"]
+    base = ["worker_came_back_empty", "late_worker_pulled_chunk0", "spawn_after_lag_period", "min_chunk_grew", "eager_run_at_construction",
+            "source_lock_contended", "parked_inside_source_next", "parked_between_claim_and_pull", "bag_grew_during_run"]
     if prop in ("C02", "C10"):
-        base += ["two_threads_matched"]
+        base += ["two_threads_matched", "later_match_published_first"]
     if prop == "C14":
-        base += ["fault_fired"]
+        base += ["fault_fired", "panic_while_others_mid_chunk", "later_element_processed_before_panic", "others_kept_working_after_panic"]
+    if prop in ("C11",):
+        base.remove("min_chunk_grew")
+    if prop not in ("C01", "C05", "C06", "C13", "C14", "C15"):
+        base.remove("bag_grew_during_run")
+    if prop in ("C08",):
+        base += []
     return base
 
 
